@@ -136,6 +136,7 @@ RULE = ("conc blocks of 0-6 children drawn from 9 non-failing shapes (assignment
         "(undefined name, assignment to a name or struct injected by value or to a missing field, panicking function or method — one of them late and with an 8 MiB panic value —, missing function or method), shuffled; each block twice or three times: plain, with an extra child Hold(\"gate\") (a function call) and, for half of them, with an extra child h.HoldM(\"gate\") (a method call) that the adversary blocks until nothing else happens for a quiet period; "
         "`Mark(1)` precedes and `Mark(99)` follows the block, the rule returns values written by the children; checked by the driver on the global call order: every child's call exactly once, all of them (and the held child's release) before Mark(99), "
         "Mark(99) absent when the block fails; checked inside Coq (after rewriting the block's calls into spawn order): outcome class, cited positions, returned value, host objects afterwards; "
+        "plus 14 engine-level calls (selected concurrent, DAG, N-M, mix) that name one rule two or three times, so that it runs twice at once, its conc block failing in the first execution only while that execution's second child is still running when the other execution enters the block: trace, error flag and result map compared with Engine/Spec.v inside Coq; "
         "distinct non-trivial = blocks with at least two children")
 
 
@@ -195,12 +196,37 @@ def main(run):
         run.report({"kind": "lang-case", "symptom": SYMPTOM_L[code]}, {"text": orig[cid]["text"], "inject": orig[cid]["inject"], "rule": "r1", "observation": {k: ob[cid].get(k) for k in ("class", "ret", "cites", "calls", "store")}, "disagreement": LCODES[code]},
                    "C18: %s — %s" % (LCODES[code], orig[cid]["text"].replace("\n", " | ")[:300]))
     report_reader(run, PID, mism, lambda i: orig[i]["text"])
+    # (E) the same rule executed TWICE at once by one call (a repeated name), its conc block failing in the first execution only
+    # while that execution's other child is still running when the second one enters the block: the failure belongs to the block
+    # that raised it and the call reports it (Engine/Spec.v spec_outcome on the observed trace, error flag and result map)
+    import engfam
+    from c05 import base as ebase
+    ecases = []
+    for entry, kw in (("ExecuteSelectedRulesConcurrent", {"names": ["ra", "ra"]}), ("ExecuteSelectedRulesConcurrent", {"names": ["rb", "ra", "ra"]}),
+                      ("ExecuteDAGModel", {"layers": [["ra", "ra"], ["rb"]]}), ("ExecuteDAGModel", {"layers": [["rb"], ["ra", "ra", "ra"]]}),
+                      ("ExecuteSelectedNConcurrentMConcurrent", {"names": ["ra", "ra", "rb"], "n": 2, "m": 1, "b": True}),
+                      ("ExecuteSelectedNConcurrentMSort", {"names": ["ra", "ra", "rb"], "n": 2, "m": 1, "b": False}),
+                      ("ExecuteSelectedRulesMixModel", {"names": ["rb", "ra", "ra"]})):
+        for rep in range(2):
+            ecases.append(ebase(entry, [{"name": "ra", "sal": 5, "kind": "concflaky", "stop": False, "ver": 100}, {"name": "rb", "sal": 9, "kind": "ret", "stop": False, "ver": 101}], **kw))
+    for i, c in enumerate(ecases):
+        c["id"], c["via"], c["quiet_ms"] = i, "engine", 25
+    eobs = engfam.run_sharded(ecases)
+    emism, _, _ = engfam.evaluate(PID + "e", ecases, eobs)
+    run.log("(E) %d calls running one rule twice at once, its conc block failing once: %d disagreement(s)" % (len(ecases), len(emism)))
+    eseen = set()
+    for cid, code in emism:
+        if (ecases[cid]["entry"], code) in eseen or code >= 10:
+            continue
+        eseen.add((ecases[cid]["entry"], code))
+        run.report({"kind": "engine-call", "entry": ecases[cid]["entry"], "symptom": engfam.SYMPTOM.get(code, str(code))}, {"case": ecases[cid], "observation": eobs[cid], "disagreement": engfam.CODES.get(code, str(code))},
+                   "C18: a conc block failing in one of two simultaneous executions of its rule, %s names=%s layers=%s: %s" % (ecases[cid]["entry"], ecases[cid]["names"], ecases[cid]["layers"], engfam.CODES.get(code, str(code))))
     if not ok and not run.violations:
         run.report({"kind": "proof", "theorem": PID}, {"theorem": "Props/C18.v", "log": log[-3000:]}, "C18: the Coq development no longer builds and no failing input was found", no_input=True)
     if ok:
         interp_facts_report(run, PID, bool(run.violations))
     cov = run.coverage
-    if not problems and not mism:
+    if not problems and not mism and not emism:
         cov["discharged"] += 1
     shapes = set()
     for c in cases:
@@ -215,4 +241,7 @@ def main(run):
 
 
 def replay(run, data):
+    if "case" in data.get("replay", {}):
+        import engfam
+        return engfam.replay_case(run, data)
     return replay_lang(run, data)
